@@ -27,7 +27,9 @@ RULE = ('histories on the real Bus with raw scripted clients (real handshake and
         'FailedToAcquireName(code) iff errbackUnlessAcquired and code in {2,3}. client_queries: releaseBusName / '
         'getNameOwner / listQueuedBusNameOwners put the question to the bus driver with the name as only argument and '
         'hand the bus answer (reply code, owner, queue) to the caller unchanged. Non-trivial = contention (a second '
-        'requester on an owned name) or a release/disconnect with a non-empty queue; distinct = distinct history JSON.')
+        'requester on an owned name) or a release/disconnect with a non-empty queue; distinct = distinct history JSON. Every second '
+        'raw peer is big-endian; bus calls carry no SENDER, the true one or another client\'s by turns, and come in the four '
+        'header spellings of refcodec.encode_variant.')
 ASSUMPTIONS = ['whether a replaced owner is dropped or re-queued is not stated: the model adopts what the next '
                'ListQueuedOwners shows',
                'a queued (non-owner) client releasing the name is answered RELEASED, as the specification defines '
